@@ -60,6 +60,19 @@ Theorem C07_y2_change_rejects : forall (K : Fld) (pk : pkey K) ms s j y', verify
   verify (mkPk (pk_g1 pk) (pk_y1s pk) (pk_g2 pk) (pk_x2 pk) (upd j y' (pk_y2s pk))) ms s = false.
 Proof. exact y2_change_rejects. Qed.
 
+(** the all-zero message keeps the X~ term: verification is e(s1, X~) = e(s2, g~) *)
+Theorem C07_verify_zero_message : forall (K : Fld) (pk : pkey K) n s,
+  verify pk (repeat f0 n) s = true <-> fst s <> f0 /\ (fst s * pk_x2 pk = snd s * pk_g2 pk)%fld.
+Proof. exact verify_zero_message. Qed.
+
+Theorem C07_zero_message_signature_is_h_hx : forall (K : Fld) (sk : skey K) (pk : pkey K) n s, key_ok K sk pk ->
+  (verify pk (repeat f0 n) s = true <-> fst s <> f0 /\ snd s = (fst s * sk_x sk)%fld).
+Proof. exact zero_message_signature_is_h_hx. Qed.
+
+Theorem C07_zero_message_not_signed_by_trivial_pair : forall (K : Fld) (sk : skey K) (pk : pkey K) n h,
+  key_ok K sk pk -> sk_x sk <> f0 -> verify pk (repeat f0 n) (h, f0) = false.
+Proof. exact zero_message_not_signed_by_trivial_pair. Qed.
+
 Example C07_nonvacuous :
   let kp := keygen (fq 11) (fq 17) [fq 19; fq 23; fq 29] (fq 13) in
   let ms := [fq 0; fq 1; fq (-1)] in let s := sign (fst kp) (fq 31) ms in
@@ -81,4 +94,7 @@ Print Assumptions C07_wrong_bf_rejects.
 Print Assumptions C07_x2_change_rejects.
 Print Assumptions C07_g2_change_rejects.
 Print Assumptions C07_y2_change_rejects.
+Print Assumptions C07_verify_zero_message.
+Print Assumptions C07_zero_message_signature_is_h_hx.
+Print Assumptions C07_zero_message_not_signed_by_trivial_pair.
 Print Assumptions C07_nonvacuous.
